@@ -58,7 +58,8 @@ def required(tier):
            'descent:mass-ignored', 'mass:min', 'mass:max', 'ptf:row-reproduced',
            'load-refused:missing-row', 'load-refused:fourth-mass', 'load-refused:duplicate-row',
            'table:sample', 'table:generated', 'loaded:from-toml-file',
-           'two-tables:same-grid-other-values', 'state-object:reused-across-models']
+           'two-tables:same-grid-other-values', 'state-object:reused-across-models',
+           'threads:four-evaluating-one-model']
     return {'classes': cl, 'evaluations': 3000}
 
 
@@ -333,6 +334,53 @@ def run_shard(spec, rec):
                                        'the state object was used on another model before',
                                        {'symbol': sym, 'phase': ph, **case})
                 rec.cls('state-object:reused-across-models')
+                # ---- several threads evaluate ONE model at the same time: the result must
+                # depend only on (altitude, mass, phase), not on what other threads ask
+                if k % 3 == 0:
+                    import sys as _sys
+                    import threading
+                    ph = rng.choice(['climb', 'cruise', 'descent'])
+                    fl_lo, fl_hi = t[ph]['fls'][0], t[ph]['fls'][-1]
+                    m_lo, m_hi = t['masses'][0], t['masses'][-1]
+                    queries = [[(rng.uniform(fl_lo, fl_hi) / METERS_TO_FL, rng.uniform(m_lo, m_hi))
+                                for _ in range(150)] for _ in range(4)]
+                    alone = [[ev(model, ph, a, m) for a, m in qs] for qs in queries]
+                    wrong, errs = [], []
+                    start = threading.Barrier(4)
+
+                    def worker(i):
+                        try:
+                            start.wait()
+                            for rep in range(3):
+                                for j, (a, m) in enumerate(queries[i]):
+                                    g = ev(model, ph, a, m)
+                                    if g != alone[i][j]:
+                                        wrong.append((i, j, g, alone[i][j]))
+                        except Exception as e:  # noqa: BLE001
+                            errs.append(f'{type(e).__name__}: {e}')
+                    old_si = _sys.getswitchinterval()
+                    _sys.setswitchinterval(1e-6)
+                    try:
+                        ths = [threading.Thread(target=worker, args=(i,)) for i in range(4)]
+                        for th in ths:
+                            th.start()
+                        for th in ths:
+                            th.join()
+                    finally:
+                        _sys.setswitchinterval(old_si)
+                    rec.ev(4 * 450)
+                    rec.count('evaluations_under_thread_contention', 4 * 450)
+                    if errs:
+                        raise Mismatch('evaluate() raised when several threads use one model',
+                                       {'errors': errs[:3], 'phase': ph, **case})
+                    if wrong:
+                        i, j, g, w_ = wrong[0]
+                        raise Mismatch('evaluate() returns another thread\'s answer when several '
+                                       'threads use one model (result does not depend only on '
+                                       'altitude, mass and phase)',
+                                       {'phase': ph, 'query': queries[i][j], 'got': g,
+                                        'alone': w_, 'n_wrong': len(wrong), **case})
+                    rec.cls('threads:four-evaluating-one-model')
                 if k == 0:
                     rec.sample({'masses': t['masses'], 'climb_fls': t['climb']['fls'],
                                 'cruise_fls': t['cruise']['fls'],
